@@ -693,6 +693,9 @@ size_t varintBP128DeltaEncode64(uint8_t *dst, const uint64_t *values,
         meta->blockCount =
             (count + VARINT_BP128_BLOCK_SIZE - 2) / VARINT_BP128_BLOCK_SIZE;
         meta->encodedBytes = (size_t)(ptr - dst);
+        /* count - 1 deltas are stored in blocks (same as DeltaEncode32) */
+        size_t tail = (count - 1) % VARINT_BP128_BLOCK_SIZE;
+        meta->lastBlockSize = tail > 0 ? tail : VARINT_BP128_BLOCK_SIZE;
         meta->maxBitWidth = maxBitWidth;
     }
 
